@@ -1,4 +1,5 @@
 import Proofs.SchedInv
+import Proofs.Team
 /-!
 An induction principle over every state the scheduler can reach.
 
@@ -13,13 +14,110 @@ structure Closed (e : Env) (P : St → Prop) : Prop where
   /-- task attributes, warnings: ledger, counters and marks untouched -/
   eq : ∀ σ σ' : St, σ'.led = σ.led → σ'.cnt = σ.cnt → σ'.marks = σ.marks → P σ → P σ'
   /-- start-offset reservation and team levelling -/
-  reserve : ∀ σ r i off, Inv e σ → 0 ≤ off → off ≤ (e.G : Rat) → P σ → P (reserveAt σ r i off)
+  reserve : ∀ σ r i off, Inv e σ → 0 ≤ off → off ≤ (e.G : Rat) - 1 / 1000000 → P σ → P (reserveAt σ r i off)
   /-- the tail release of the finishing slot (on the last booked member and on the other team members) -/
   release : ∀ (σ : St) r i t a, Inv e σ → (e.taskD t).leaf = true → 0 ≤ a → P σ →
     P { σ with led := σ.led.set r i ((σ.led.get r i).release t a) }
   /-- a booking, made only behind the gate -/
-  book : ∀ σ r i t, Inv e σ → (e.taskD t).leaf = true → available e σ r i = true → taskLimitsOk e σ t i r = true →
+  book : ∀ σ r i t, Inv e σ → (e.taskD t).leaf = true → 0 ≤ i → available e σ r i = true → taskLimitsOk e σ t i r = true →
     P σ → P (bookSlot e σ r i t).1
+
+/-- the cursor is inside the scoreboard and the start offset leaves room in its slot -/
+structure WalkIn (e : Env) (w : Walk) : Prop where
+  cur_nonneg : 0 ≤ w.cur
+  off_room : w.offset ≤ (e.G : Rat) - 1 / 1000000
+
+theorem availSecs_pos_iff (G : Int) (s : Slot) : availSecs G s > 0 ↔ s.used ≤ (G : Rat) - 1 / 1000000 := by
+  unfold availSecs
+  constructor
+  · intro h
+    simp only [] at h
+    split at h
+    · exact absurd h (by grind)
+    · grind
+  · intro h
+    simp only []
+    split
+    · rename_i hlt; grind
+    · grind
+
+/-- a team that passed the gate: every member still has room in the slot -/
+theorem teamGateOk_avail (e : Env) (t : Nat) (i : Int) (σ : St) (sel : List Nat) (h : teamGateOk e t i σ sel = true) :
+    ∀ m ∈ sel, availSecs e.G (σ.led.get m i) > 0 := by
+  induction sel generalizing σ with
+  | nil => intro m hm; cases hm
+  | cons r rs ih =>
+    unfold teamGateOk at h
+    simp only [Bool.and_eq_true] at h
+    intro m hm
+    rcases List.mem_cons.mp hm with hm | hm
+    · subst hm
+      have := h.1.1
+      unfold available at this
+      simp only [Bool.and_eq_true, decide_eq_true_eq] at this
+      exact this.1.1.2
+    · have := ih (countMember e σ t i r) h.2 m hm
+      rw [countMember_led] at this
+      exact this
+
+theorem teamCommon_room (e : Env) (wf : WF e) (σ : St) (cur : Int) (sel : List Nat)
+    (h : ∀ m ∈ sel, availSecs e.G (σ.led.get m cur) > 0) : teamCommon σ cur sel ≤ (e.G : Rat) - 1 / 1000000 := by
+  unfold teamCommon
+  have hG : (1 : Rat) ≤ (e.G : Rat) := by
+    have : (1 : Int) ≤ e.G := wf.G_pos
+    exact_mod_cast this
+  have : ∀ (l : List Nat) (init : Rat), init ≤ (e.G : Rat) - 1 / 1000000 → (∀ m ∈ l, availSecs e.G (σ.led.get m cur) > 0) →
+      l.foldl (fun m r => max m (σ.led.get r cur).used) init ≤ (e.G : Rat) - 1 / 1000000 := by
+    intro l
+    induction l with
+    | nil => intro init hi _; exact hi
+    | cons x xs ih =>
+      intro init hi hl
+      simp only [List.foldl_cons]
+      apply ih
+      · have := (availSecs_pos_iff e.G _).mp (hl x List.mem_cons_self)
+        grind
+      · exact fun m hm => hl m (List.mem_cons_of_mem _ hm)
+  exact this sel 0 (by grind) h
+
+theorem cursorOf_room (e : Env) (wf : WF e) (earliest : Int) (hge : e.start ≤ earliest) :
+    (cursorOf e earliest).2 ≤ (e.G : Rat) - 1 := by
+  unfold cursorOf
+  simp only []
+  have hfl := (Board.mk e.start e.stop e.G).rawIdx_floor wf.G_pos (t := earliest) hge
+  simp only [Board.time, Board.rawIdx] at hfl
+  have hG1 : (1 : Rat) ≤ (e.G : Rat) := by
+    have : (1 : Int) ≤ e.G := wf.G_pos
+    exact_mod_cast this
+  split
+  · have h2 : earliest - e.time (e.idx earliest) ≤ e.G - 1 := by
+      unfold Env.time Env.idx
+      have := hfl.2
+      have e1 : (Int.tdiv (earliest - e.start) e.G + 1) * e.G = Int.tdiv (earliest - e.start) e.G * e.G + e.G := by
+        rw [Int.add_mul]; omega
+      omega
+    have h3 : ((earliest - e.time (e.idx earliest) : Int) : Rat) ≤ ((e.G - 1 : Int) : Rat) := by exact_mod_cast h2
+    have h4 : ((e.G - 1 : Int) : Rat) = (e.G : Rat) - 1 := by push_cast; rfl
+    rw [h4] at h3
+    exact h3
+  · grind
+
+theorem initCursor_room (e : Env) (σ : St) (t : Nat) (wf : WF e) : (initCursor e σ t).2 ≤ (e.G : Rat) - 1 / 1000000 := by
+  have hG1 : (1 : Rat) ≤ (e.G : Rat) := by
+    have : (1 : Int) ≤ e.G := wf.G_pos
+    exact_mod_cast this
+  have zero : (0 : Rat) ≤ (e.G : Rat) - 1 / 1000000 := by grind
+  have hc : ∀ B, e.start ≤ B → (cursorOf e B).2 ≤ (e.G : Rat) - 1 / 1000000 := fun B hB => by
+    have := cursorOf_room e wf B hB; grind
+  unfold initCursor
+  simp only []
+  split
+  · split
+    · split
+      · exact zero
+      · exact hc _ (Int.le_trans (by omega) (earliestStart_ge σ _ _))
+    · exact hc _ (earliestStart_ge σ _ _)
+  · split <;> exact zero
 
 variable {e : Env} {P : St → Prop}
 
@@ -27,42 +125,44 @@ theorem Closed.setT (hc : Closed e P) (σ : St) (t : Nat) (x : TSt) (h : P σ) :
   hc.eq σ _ rfl rfl rfl h
 
 theorem closed_reserveStep (hc : Closed e P) (σ : St) (t : Nat) (w : Walk) (r : Nat) (hi : Inv e σ) (hw : WalkOk e t w)
-    (h : P σ) : P (reserveStep σ w r) := by
+    (hin : WalkIn e w) (h : P σ) : P (reserveStep σ w r) := by
   unfold reserveStep
   split
-  · exact hc.reserve σ r w.cur w.offset hi hw.off_nonneg hw.off_le h
+  · exact hc.reserve σ r w.cur w.offset hi hw.off_nonneg hin.off_room h
   · exact h
 
-theorem closed_levelTeam (hc : Closed e P) (wf : WF e) (σ : St) (cur : Int) (sel : List Nat) (hi : Inv e σ) (h : P σ) :
+theorem closed_levelTeam (hc : Closed e P) (wf : WF e) (σ : St) (cur : Int) (sel : List Nat) (hi : Inv e σ)
+    (hroom : ∀ m ∈ sel, availSecs e.G (σ.led.get m cur) > 0) (h : P σ) :
     P (levelTeam σ cur sel) := by
   unfold levelTeam
   obtain ⟨h0, h1⟩ := teamCommon_bounds e σ cur sel wf hi
+  have h2 := teamCommon_room e wf σ cur sel hroom
   have := foldl_inv (fun acc => Inv e acc ∧ P acc) (fun acc r => reserveAt acc r cur (teamCommon σ cur sel)) sel σ ⟨hi, h⟩
-    (fun acc r ha => ⟨reserveAt_inv e acc r cur _ ha.1 h0 h1, hc.reserve acc r cur _ ha.1 h0 h1 ha.2⟩)
+    (fun acc r ha => ⟨reserveAt_inv e acc r cur _ ha.1 h0 h1, hc.reserve acc r cur _ ha.1 h0 h2 ha.2⟩)
   exact this.2
 
 theorem closed_bookResource (hc : Closed e P) (wf : WF e) (σ : St) (t : Nat) (w : Walk) (r : Nat) (hi : Inv e σ)
-    (hlf : (e.taskD t).leaf = true) (hw : WalkOk e t w) (h : P σ) : P (bookResource e σ t w r).1 := by
+    (hlf : (e.taskD t).leaf = true) (hw : WalkOk e t w) (hin : WalkIn e w) (h : P σ) : P (bookResource e σ t w r).1 := by
   rw [bookResource_eq]
   have h1 := reserveStep_inv e σ t w r hi hw
-  have p1 := closed_reserveStep hc σ t w r hi hw h
+  have p1 := closed_reserveStep hc σ t w r hi hw hin h
   split
   · rename_i hcond
     simp only [Bool.and_eq_true] at hcond
-    exact hc.book _ r w.cur t h1 hlf hcond.1 hcond.2 p1
+    exact hc.book _ r w.cur t h1 hlf hin.cur_nonneg hcond.1 hcond.2 p1
   · exact p1
 
 theorem closed_bookOne (hc : Closed e P) (wf : WF e) (t : Nat) (w : Walk) (a : BookAcc) (r : Nat) (hi : Inv e a.σ)
-    (hlf : (e.taskD t).leaf = true) (hw : WalkOk e t w) (h : P a.σ) : P (bookOne e t w a r).σ := by
+    (hlf : (e.taskD t).leaf = true) (hw : WalkOk e t w) (hin : WalkIn e w) (h : P a.σ) : P (bookOne e t w a r).σ := by
   unfold bookOne
   simp only []
-  split <;> exact closed_bookResource hc wf a.σ t w r hi hlf hw h
+  split <;> exact closed_bookResource hc wf a.σ t w r hi hlf hw hin h
 
 theorem closed_bookAll (hc : Closed e P) (wf : WF e) (σ : St) (t : Nat) (w : Walk) (sel : List Nat) (hi : Inv e σ)
-    (hlf : (e.taskD t).leaf = true) (hw : WalkOk e t w) (h : P σ) : P (bookAll e σ t w sel).σ := by
+    (hlf : (e.taskD t).leaf = true) (hw : WalkOk e t w) (hin : WalkIn e w) (h : P σ) : P (bookAll e σ t w sel).σ := by
   unfold bookAll
   have := foldl_inv (fun (a : BookAcc) => Inv e a.σ ∧ P a.σ) (bookOne e t w) sel { σ := σ, last := w.last } ⟨hi, h⟩
-    (fun a r ha => ⟨bookOne_inv e t w a r wf ha.1 hlf hw, closed_bookOne hc wf t w a r ha.1 hlf hw ha.2⟩)
+    (fun a r ha => ⟨bookOne_inv e t w a r wf ha.1 hlf hw, closed_bookOne hc wf t w a r ha.1 hlf hw hin ha.2⟩)
   exact this.2
 
 theorem closed_markStart (hc : Closed e P) (σ : St) (t : Nat) (w : Walk) (h : P σ) : P (markStart e σ t w) := by
@@ -71,9 +171,10 @@ theorem closed_markStart (hc : Closed e P) (σ : St) (t : Nat) (w : Walk) (h : P
   · exact h
 
 theorem closed_bookResources (hc : Closed e P) (wf : WF e) (σ : St) (t : Nat) (w : Walk) (hi : Inv e σ)
-    (hlf : (e.taskD t).leaf = true) (hw : WalkOk e t w) (h : P σ) : P (bookResources e σ t w).1 := by
+    (hlf : (e.taskD t).leaf = true) (hw : WalkOk e t w) (hin : WalkIn e w) (h : P σ) : P (bookResources e σ t w).1 := by
   unfold bookResources
   have hw' : WalkOk e t { w with selected := some (selectedOf e σ t w) } := ⟨hw.off_nonneg, hw.off_le, hw.done_le⟩
+  have hin' : WalkIn e { w with selected := some (selectedOf e σ t w) } := ⟨hin.cur_nonneg, hin.off_room⟩
   split
   · exact h
   · simp only []
@@ -81,12 +182,19 @@ theorem closed_bookResources (hc : Closed e P) (wf : WF e) (σ : St) (t : Nat) (
     · exact h
     · split
       · exact h
-      · have hL : Inv e (leveled e σ t w.cur (selectedOf e σ t w)) ∧ P (leveled e σ t w.cur (selectedOf e σ t w)) := by
+      · rename_i hgate
+        have hL : Inv e (leveled e σ t w.cur (selectedOf e σ t w)) ∧ P (leveled e σ t w.cur (selectedOf e σ t w)) := by
           unfold leveled
           split
-          · exact ⟨levelTeam_inv e σ w.cur _ wf hi, closed_levelTeam hc wf σ w.cur _ hi h⟩
+          · rename_i hteam
+            have hok : teamGateOk e t w.cur σ (selectedOf e σ t w) = true := by
+              unfold teamGateFails at hgate
+              simp only [hteam, Bool.true_and, Bool.not_eq_true', Bool.not_eq_false] at hgate
+              exact hgate
+            exact ⟨levelTeam_inv e σ w.cur _ wf hi,
+              closed_levelTeam hc wf σ w.cur _ hi (teamGateOk_avail e t w.cur σ _ hok) h⟩
           · exact ⟨hi, h⟩
-        have hacc := closed_bookAll hc wf _ t _ (selectedOf e σ t w) hL.1 hlf hw' hL.2
+        have hacc := closed_bookAll hc wf _ t _ (selectedOf e σ t w) hL.1 hlf hw' hin' hL.2
         split
         · exact closed_markStart hc _ t _ hacc
         · exact hacc
@@ -136,7 +244,7 @@ theorem closed_finishTask (hc : Closed e P) (wf : WF e) (σ : St) (t : Nat) (w :
     exact closed_releaseOthers hc _ t w.cur r _ _ hlf hn hi1 (hc.release σ r w.cur t _ hi hlf hn h)
 
 theorem closed_scheduleSlot (hc : Closed e P) (wf : WF e) (σ : St) (t : Nat) (w : Walk) (hi : Inv e σ)
-    (hlf : (e.taskD t).leaf = true) (hw : WalkOk e t w) (h : P σ) : P (scheduleSlot e σ t w).1 := by
+    (hlf : (e.taskD t).leaf = true) (hw : WalkOk e t w) (hin : WalkIn e w) (h : P σ) : P (scheduleSlot e σ t w).1 := by
   unfold scheduleSlot
   simp only []
   split
@@ -148,20 +256,21 @@ theorem closed_scheduleSlot (hc : Closed e P) (wf : WF e) (σ : St) (t : Nat) (w
       · exact hc.setT _ _ _ h
       · exact hc.setT _ _ _ h
   · have hb := bookResources_inv e σ t w wf hi hlf hw
-    have pb := closed_bookResources hc wf σ t w hi hlf hw h
+    have pb := closed_bookResources hc wf σ t w hi hlf hw hin h
     split
     · have pfin := closed_finishTask hc wf _ t (bookResources e σ t w).2 w.done (σ.tst t).forward hb hlf hw.done_le pb
       exact hc.eq (finishTask e (bookResources e σ t w).1 t (bookResources e σ t w).2 w.done (σ.tst t).forward).1 _ rfl rfl rfl pfin
     · exact pb
 
 theorem closed_walkLoop (hc : Closed e P) (wf : WF e) (t : Nat) (fwd : Bool) (fuel : Nat) (σ : St) (w : Walk)
-    (hi : Inv e σ) (hlf : (e.taskD t).leaf = true) (hw : WalkOk e t w) (h : P σ) : P (walkLoop e t fwd fuel σ w).1 := by
+    (hi : Inv e σ) (hlf : (e.taskD t).leaf = true) (hw : WalkOk e t w) (hin : WalkIn e w) (h : P σ) :
+    P (walkLoop e t fwd fuel σ w).1 := by
   induction fuel generalizing σ w with
   | zero => exact h
   | succ f ih =>
     unfold walkLoop
     have hs := scheduleSlot_inv e σ t w wf hi hlf hw
-    have ps := closed_scheduleSlot hc wf σ t w hi hlf hw h
+    have ps := closed_scheduleSlot hc wf σ t w hi hlf hw hin h
     simp only []
     split
     · exact ps
@@ -170,7 +279,14 @@ theorem closed_walkLoop (hc : Closed e P) (wf : WF e) (t : Nat) (fwd : Bool) (fu
       have hw1 := hs.2 hcont
       split
       · exact ps
-      · exact ih _ _ hs.1 (walkOk_advance e t wf _ _ _ hw1) ps
+      · rename_i hbounds
+        refine ih _ _ hs.1 (walkOk_advance e t wf _ _ _ hw1) ⟨?_, ?_⟩ ps
+        · simp only [Bool.or_eq_true, decide_eq_true_eq, not_or, Int.not_lt] at hbounds
+          exact hbounds.1
+        · show (0 : Rat) ≤ (e.G : Rat) - 1 / 1000000
+          have : (1 : Int) ≤ e.G := wf.G_pos
+          have : (1 : Rat) ≤ (e.G : Rat) := by exact_mod_cast this
+          grind
 
 theorem closed_scheduleTask (hc : Closed e P) (wf : WF e) (σ : St) (t : Nat) (hi : Inv e σ)
     (hlf : (e.taskD t).leaf = true) (h : P σ) : P (scheduleTask e σ t).1 := by
@@ -185,7 +301,12 @@ theorem closed_scheduleTask (hc : Closed e P) (wf : WF e) (σ : St) (t : Nat) (h
     · exact hc.setT _ _ _ p0
     · have hw : WalkOk e t { cur := preStartCursor e σ t (initCursor e σ t).1, offset := (initCursor e σ t).2 } :=
         ⟨hoff.1, hoff.2, wf.effort_nonneg t⟩
-      have := closed_walkLoop hc wf t (σ.tst t).forward (e.size.toNat + 3) _ _ h0 hlf hw p0
+      rename_i hbounds
+      have hin : WalkIn e { cur := preStartCursor e σ t (initCursor e σ t).1, offset := (initCursor e σ t).2 } := by
+        refine ⟨?_, initCursor_room e σ t wf⟩
+        simp only [Bool.or_eq_true, decide_eq_true_eq, not_or, Int.not_lt] at hbounds
+        exact hbounds.1
+      have := closed_walkLoop hc wf t (σ.tst t).forward (e.size.toNat + 3) _ _ h0 hlf hw hin p0
       split
       · exact hc.setT _ _ _ this
       · exact hc.setT _ _ _ this
